@@ -3,6 +3,10 @@
 From PW Require Import Child.Sem Gen.Skel Child.Runs.
 
 Definition BOUND := 40.
+Definition BOUND_R := 72.      (* the remote backend's run loop is longer *)
+(* how a graceful terminate reaches a child of each kind: a thread is raised in directly by the caller, process and
+   remote children by their own control thread (see [ATerm]) *)
+Definition term_action (k : kind) : action := match k with KThread => AWTE | _ => ATerm end.
 
 Definition shape_ok (t : target) (o : obs) : Prop :=
   match o with
@@ -10,7 +14,7 @@ Definition shape_ok (t : target) (o : obs) : Prop :=
   | OErr (Some EOwn) => t = TRaise
   | OErr (Some EBaseOwn) => t = TRaiseBase
   | OErr (Some EWTE) | OErr None | OAlive => True
-  | OUndef | ORaises => False
+  | OUndef | ORaises | OErr (Some EOther) => False      (* an error of the run loop itself is never what gets reported *)
   end.
 
 Definition target_eqb (a b : target) : bool :=
@@ -22,11 +26,11 @@ Definition shape_okb (t : target) (o : obs) : bool :=
   | OErr (Some EOwn) => target_eqb t TRaise
   | OErr (Some EBaseOwn) => target_eqb t TRaiseBase
   | OErr (Some EWTE) | OErr None | OAlive => true
-  | OUndef | ORaises => false
+  | OUndef | ORaises | OErr (Some EOther) => false
   end.
 
 Lemma shape_okb_ok t o : shape_okb t o = true -> shape_ok t o.
-Proof. destruct o as [|[[| |]|]| | |]; simpl; auto; destruct t; simpl; congruence. Qed.
+Proof. destruct o as [|[[| | |]|]| | |]; simpl; auto; destruct t; simpl; congruence. Qed.
 
 Definition case := (kind * bool * target * bool * (nat * action) * (nat * action))%type.
 
@@ -36,47 +40,55 @@ Definition obs_of (c : case) : obs :=
 Definition steps_of (c : case) : nat :=
   let '(k, pers, t, rb, i1, i2) := c in step (snd (run k pers t [i1; i2])).
 
-Definition injections : list (nat * action) := list_prod (seq 0 BOUND) actions.
+Definition injections (B : nat) : list (nat * action) := list_prod (seq 0 B) actions.
 
-Definition all_cases : list case :=
-  list_prod (list_prod (list_prod (list_prod (list_prod kinds bools) targets) bools) injections) injections.
+Definition cases_of_p (ks : list kind) (ps : list bool) (B : nat) : list case :=
+  list_prod (list_prod (list_prod (list_prod (list_prod ks ps) targets) bools) (injections B)) (injections B).
+Definition cases_of (ks : list kind) (B : nat) : list case := cases_of_p ks bools B.
 
-Lemma in_kinds k : In k kinds. Proof. destruct k; simpl; auto. Qed.
+Definition all_cases : list case := cases_of kinds BOUND.
+
+Lemma in_kinds k : k <> KRemote -> In k kinds. Proof. destruct k; simpl; auto; congruence. Qed.
+Lemma in_kinds3 k : In k kinds3. Proof. destruct k; simpl; auto. Qed.
 Lemma in_bools b : In b bools. Proof. destruct b; simpl; auto. Qed.
 Lemma in_targets t : In t targets. Proof. destruct t; simpl; auto. Qed.
-Lemma in_actions a : In a actions. Proof. destruct a; simpl; auto. Qed.
-Lemma in_injections p a : p < BOUND -> In (p, a) injections.
-Proof. intros H. apply in_prod; [apply in_seq; lia|apply in_actions]. Qed.
+Lemma in_actions a : a <> ATerm -> In a actions. Proof. destruct a; simpl; auto; congruence. Qed.
+Lemma in_injections B p a : a <> ATerm -> p < B -> In (p, a) (injections B).
+Proof. intros Ha H. apply in_prod; [apply in_seq; lia|apply in_actions; exact Ha]. Qed.
 
-Lemma in_all_cases k pers t rb p1 a1 p2 a2 :
-  p1 < BOUND -> p2 < BOUND -> In (k, pers, t, rb, (p1, a1), (p2, a2)) all_cases.
+Lemma in_cases_of_p ks ps B k pers t rb p1 a1 p2 a2 :
+  In k ks -> In pers ps -> a1 <> ATerm -> a2 <> ATerm -> p1 < B -> p2 < B -> In (k, pers, t, rb, (p1, a1), (p2, a2)) (cases_of_p ks ps B).
 Proof.
-  intros H1 H2. unfold all_cases.
+  intros Hk Hp Ha1 Ha2 H1 H2. unfold cases_of_p.
   apply in_prod; [apply in_prod; [apply in_prod; [apply in_prod; [apply in_prod;
-    [apply in_kinds|apply in_bools]|apply in_targets]|apply in_bools]|apply in_injections; assumption]|apply in_injections; assumption].
+    [exact Hk|exact Hp]|apply in_targets]|apply in_bools]|apply in_injections; assumption]|apply in_injections; assumption].
 Qed.
+
+Lemma in_cases_of ks B k pers t rb p1 a1 p2 a2 :
+  In k ks -> a1 <> ATerm -> a2 <> ATerm -> p1 < B -> p2 < B -> In (k, pers, t, rb, (p1, a1), (p2, a2)) (cases_of ks B).
+Proof. intros Hk. apply in_cases_of_p; [exact Hk|apply in_bools]. Qed.
 
 Definition tgt_of (c : case) : target := let '(k, pers, t, rb, i1, i2) := c in t.
 
-Definition c01_check (c : case) : bool := shape_okb (tgt_of c) (obs_of c) && (steps_of c <? BOUND).
+Definition c01_check (B : nat) (c : case) : bool := shape_okb (tgt_of c) (obs_of c) && (steps_of c <? B).
 
-Lemma c01_all : forallb c01_check all_cases = true.
+Lemma c01_all : forallb (c01_check BOUND) all_cases = true.
 Proof. vm_compute. reflexivity. Qed.
 
-Lemma c01_check_sound (c : case) :
-  c01_check c = true -> shape_ok (tgt_of c) (obs_of c) /\ steps_of c < BOUND.
+Lemma c01_check_sound B (c : case) :
+  c01_check B c = true -> shape_ok (tgt_of c) (obs_of c) /\ steps_of c < B.
 Proof.
-  unfold c01_check. intros H. apply andb_prop in H. destruct H as [A B].
-  split; [exact (shape_okb_ok _ _ A)|apply Nat.ltb_lt; exact B].
+  unfold c01_check. intros H. apply andb_prop in H. destruct H as [A C].
+  split; [exact (shape_okb_ok _ _ A)|apply Nat.ltb_lt; exact C].
 Qed.
 
 Theorem c01_every_landing k pers t rb p1 a1 p2 a2 :
-  p1 < BOUND -> p2 < BOUND ->
+  k <> KRemote -> a1 <> ATerm -> a2 <> ATerm -> p1 < BOUND -> p2 < BOUND ->
   shape_ok t (obs_of (k, pers, t, rb, (p1, a1), (p2, a2))) /\ steps_of (k, pers, t, rb, (p1, a1), (p2, a2)) < BOUND.
 Proof.
-  intros H1 H2.
-  exact (c01_check_sound (k, pers, t, rb, (p1, a1), (p2, a2))
-           (proj1 (forallb_forall c01_check all_cases) c01_all _ (in_all_cases k pers t rb p1 a1 p2 a2 H1 H2))).
+  intros Hk Ha1 Ha2 H1 H2.
+  exact (c01_check_sound BOUND (k, pers, t, rb, (p1, a1), (p2, a2))
+           (proj1 (forallb_forall (c01_check BOUND) all_cases) c01_all _ (in_cases_of kinds BOUND k pers t rb p1 a1 p2 a2 (in_kinds k Hk) Ha1 Ha2 H1 H2))).
 Qed.
 
 (* ---------- C03: one graceful terminate ---------- *)
@@ -84,68 +96,86 @@ Qed.
 Definition handler_window (k : kind) (t : target) (p : nat) : bool :=
   match t with
   | TRaise | TRaiseBase =>
-      negb (obs_eqb (observe k true (run k false t [(p, AWTE)])) (own k t))
-      && negb (obs_eqb (observe k true (run k false t [(p, AWTE)])) (OErr (Some EWTE)))
+      negb (obs_eqb (observe k true (run k false t [(p, term_action k)])) (own k t))
+      && negb (obs_eqb (observe k true (run k false t [(p, term_action k)])) (OErr (Some EWTE)))
   | _ => false
   end.
 
 Definition c03_check (x : kind * bool * target * nat) : bool :=
   let '(k, pers, t, p) := x in
   if p <? start_point k then true else
-  let r := run k pers t [(p, AWTE)] in
+  let r := run k pers t [(p, term_action k)] in
   let o := observe k true r in
   match t with
   | TLoop => obs_eqb o (OErr (Some EWTE)) && cleanup_ran (snd r) || obs_eqb o OAlive
   | _ => obs_eqb o (own k t) || obs_eqb o (OErr (Some EWTE)) || handler_window k t p
   end.
 
-Definition c03_cases := list_prod (list_prod (list_prod kinds bools) targets) (seq 0 BOUND).
+Definition c03_cases := list_prod (list_prod (list_prod kinds3 bools) targets) (seq 0 BOUND_R).
 
 Lemma c03_all : forallb c03_check c03_cases = true.
 Proof. vm_compute. reflexivity. Qed.
 
 Theorem c03_every_landing k pers t p :
-  start_point k <= p < BOUND -> c03_check (k, pers, t, p) = true.
+  start_point k <= p < BOUND_R -> c03_check (k, pers, t, p) = true.
 Proof.
   intros [H1 H2]. apply (proj1 (forallb_forall c03_check c03_cases) c03_all).
-  unfold c03_cases. apply in_prod; [apply in_prod; [apply in_prod; [apply in_kinds|apply in_bools]|apply in_targets]|apply in_seq; lia].
+  unfold c03_cases. apply in_prod; [apply in_prod; [apply in_prod; [apply in_kinds3|apply in_bools]|apply in_targets]|apply in_seq; lia].
+Qed.
+
+(* the remote kind has no handler window: its handlers are nested, a request landing in the inner one is caught and
+   reported by the outer one *)
+Lemma c03_remote_no_window t p : p < BOUND_R -> handler_window KRemote t p = false.
+Proof.
+  intros H.
+  assert (A : forallb (fun x => negb (handler_window KRemote (fst x) (snd x))) (list_prod targets (seq 0 BOUND_R)) = true) by (vm_compute; reflexivity).
+  apply negb_true_iff.
+  apply (proj1 (forallb_forall _ _) A (t, p)). apply in_prod; [apply in_targets|apply in_seq; lia].
 Qed.
 
 (* the request lands inside the running target: always reported as WorkerTerminatedError, finally blocks ran *)
-Definition call_point (k : kind) : nat := match k with KThread => start_point k + 2 | KProcess => start_point k + 1 end.
+Definition call_point (k : kind) : nat :=
+  match k with KThread => start_point k + 2 | KProcess => start_point k + 1 | KRemote => start_point k + 4 end.
 
 Lemma c03_inside_target k pers :
-  let r := run k pers TLoop [(call_point k, AWTE)] in
+  let r := run k pers TLoop [(call_point k, term_action k)] in
   observe k true r = OErr (Some EWTE) /\ cleanup_ran (snd r) = true
-  /\ observe k true (run k pers TLoop [(S (call_point k), AWTE)]) = OAlive.   (* it is the last point ever reached *)
+  /\ observe k true (run k pers TLoop [(S (call_point k), term_action k)]) = OAlive.   (* it is the last point ever reached *)
 Proof. destruct k, pers; vm_compute; repeat split; reflexivity. Qed.
 
 (* ---------- C16: the child's user_state travels with every report ---------- *)
 (* Both result messages of ProcessWorker._run are `((ok, value), self._user_state)`: the labels
    SendResOk / SendResErr are only given to statements of exactly that shape by the translator.
-   The parent takes the state from the message it decodes, after the child's death. *)
+   The parent takes the state from the message it decodes, after the child's death.
+   The remote backend sends the state as a message of its own right after the result (SockSendState). *)
 Definition state_synced (k : kind) (rb : bool) (r : completion * cs) : bool :=
-  match observe k rb r with
-  | OOk | OErr (Some _) => true
-  | _ => false
+  match k with
+  | KRemote => remote_state_received rb (comms (snd r))
+  | _ => match observe k rb r with OOk | OErr (Some _) => true | _ => false end
   end.
 
 Lemma c16_reporting_endings k pers :
   state_synced k true (run k pers TReturn []) = true
   /\ state_synced k true (run k pers TRaise []) = true
-  /\ state_synced k true (run k pers TLoop [(call_point k, AWTE)]) = true.
+  /\ state_synced k true (run k pers TLoop [(call_point k, term_action k)]) = true.
 Proof. destruct k, pers; vm_compute; repeat split; reflexivity. Qed.
 
-(* a kill never lets a stale or partial state through: without a decoded report the parent keeps the initial state *)
-Definition c16_check (x : bool * target * nat * action) : bool :=
-  let '(pers, t, p, a) := x in
-  let r := run KProcess pers t [(p, a)] in
-  match a with
-  | AWTE => true
-  | _ => (* killed at p: synchronised only if the complete result message had already been written *)
-      Bool.eqb (state_synced KProcess true r)
-               (existsb (fun m => match m with MRes _ _ => true | _ => false end) (comms (snd r)))
+Definition is_report (k : kind) (m : cmsg) : bool :=
+  match k, m with
+  | KRemote, MState => true            (* the state message is complete: the result before it was, too *)
+  | KProcess, MRes _ _ => true
+  | _, _ => false
   end.
 
-Lemma c16_all : forallb c16_check (list_prod (list_prod (list_prod bools targets) (seq 0 BOUND)) actions) = true.
+(* a kill never lets a stale or partial state through: without a decoded report the parent keeps the initial state *)
+Definition c16_check (x : kind * bool * target * nat * action) : bool :=
+  let '(k, pers, t, p, a) := x in
+  let r := run k pers t [(p, a)] in
+  match a, k with
+  | (AWTE | ATerm), _ | _, KThread => true
+  | _, _ => (* killed at p: synchronised only if the complete report had already been written *)
+      Bool.eqb (state_synced k true r) (existsb (is_report k) (comms (snd r)))
+  end.
+
+Lemma c16_all : forallb c16_check (list_prod (list_prod (list_prod (list_prod kinds3 bools) targets) (seq 0 BOUND_R)) actions) = true.
 Proof. vm_compute. reflexivity. Qed.
